@@ -7,12 +7,14 @@
 #include <string.h>
 #include <stdlib.h>
 
-enum { OP_FAST_OVER, OP_GENERAL_ATOP, OP_SAME_TWICE, OP_FILL, OP_REGION, OP_TRAP, OP_SHARED_SRC, OP_GRADIENT, OP_SHARED_GRADIENT, OP_SHARED_CLIPPED_SRC, OP_SHARED_ACCESSOR_SRC, N_BODY_OPS };
+enum { OP_FAST_OVER, OP_GENERAL_ATOP, OP_SAME_TWICE, OP_FILL, OP_REGION, OP_TRAP, OP_SHARED_SRC, OP_GRADIENT, OP_SHARED_GRADIENT, OP_SHARED_CLIPPED_SRC, OP_SHARED_ACCESSOR_SRC, OP_TILE_FILL, N_BODY_OPS };
 static const char *body_op_name[N_BODY_OPS] = { "fast-path OVER 8888->8888", "general-path ATOP 8888->0565", "same ADD composite twice (cache hit)", "pixman_fill + fill_rectangles",
                                                 "region32 union/subtract", "rasterize_trapezoid a8", "OVER from the shared source", "linear gradient SRC (general iterators)", "SRC from the shared 4-stop gradient (per-thread origin)",
                                                 "OVER from the shared source that has a two-box client clip with source clipping (per-thread offset)",
-                                                "OVER from the shared source that is read through accessor callbacks" };
+                                                "OVER from the shared source that is read through accessor callbacks",
+                                                "pixman_fill into the thread's own columns of a buffer whose other columns belong to other threads (8 and 16 bpp, tiles not word-aligned)" };
 
+#define TILE_STRIDE_WORDS 20
 #define DW 3
 #define DH 2
 
@@ -24,6 +26,7 @@ typedef struct {
     pixman_region32_t reg;
     /* shared, read-only after its first use on the main thread */
     pixman_image_t *shared_src, *shared_grad, *shared_clipped, *shared_acc;
+    uint32_t *tile8, *tile16; int tile_ix;       /* one buffer for all threads: 2 rows of TILE_STRIDE_WORDS words; the thread with tile index k owns columns [1+3k, 4+3k) (8 bpp) / [1+2k, 3+2k) (16 bpp) */
     int tid;
     uint64_t digest;
 } tctx_t;
@@ -124,6 +127,9 @@ static void body_run(tctx_t *t, int op)
     case OP_SHARED_GRADIENT:
         /* several threads read one gradient image (validated by its first use on the main thread) at different origins */
         pixman_image_composite32(PIXMAN_OP_SRC, t->shared_grad, NULL, t->dst32, 3 * t->tid, 0, 0, 0, 0, 0, DW, DH); break;
+    case OP_TILE_FILL:
+        pixman_fill(t->tile8, TILE_STRIDE_WORDS, 8, 1 + 3 * t->tile_ix, 0, 3, 2, 0x11u * (unsigned)(t->tid + 1) * 0x01010101u);
+        pixman_fill(t->tile16, TILE_STRIDE_WORDS, 16, 1 + 2 * t->tile_ix, 0, 2, 2, (0x1111u * (unsigned)(t->tid + 3)) * 0x00010001u); break;
     case OP_SHARED_ACCESSOR_SRC:
         pixman_image_composite32(PIXMAN_OP_OVER, t->shared_acc, NULL, t->dst32, 0, 0, 0, 0, 0, 0, DW, DH); break;
     case OP_SHARED_CLIPPED_SRC:
@@ -136,6 +142,7 @@ static uint64_t body_digest(tctx_t *t)
 {
     uint64_t h = body_hash(t->d32, sizeof t->d32, 1);
     h = body_hash(t->d16, sizeof t->d16, h); h = body_hash(t->d8, sizeof t->d8, h);
+    if (t->tile8) for (int y = 0; y < 2; y++) { h = body_hash((const uint8_t *)t->tile8 + y * TILE_STRIDE_WORDS * 4 + 1 + 3 * t->tile_ix, 3, h); h = body_hash((const uint16_t *)t->tile16 + y * TILE_STRIDE_WORDS * 2 + 1 + 2 * t->tile_ix, 4, h); }
     int n; pixman_box32_t *b = pixman_region32_rectangles(&t->reg, &n);
     h = body_hash(b, sizeof(*b) * (size_t)n, h);
     return h;
